@@ -594,8 +594,11 @@ def run(ctx):
     # second pass: the real outputs of accepted generated documents are conforming documents written with
     # omitted tags and minimal white space (the generator itself writes every tag); they are new inputs
     bad1 = set(i for i, _ in rejects)
+    # X12 (known finding): an attribute-less <colgroup> after a colgroup whose end tag the *input* already omits
+    x12 = re.compile(r'<colgroup[^>]*>(\s|<col[^>]*>|<!--.*?-->)*<colgroup>')
     outs = sorted(set((side[i], cases[i]['frag']) for i in range(n_tree)
-                      if i not in bad1 and cases[i]['opts'] == 0 and side[i].encode() != bytes(cases[i]['src'])))
+                      if i not in bad1 and cases[i]['opts'] == 0 and side[i].encode() != bytes(cases[i]['src'])
+                      and not x12.search(side[i])))
     outs = vlib.sample(outs, 1500 if ctx.quick() else 30000, ctx.rnd)
     pass2 = []
     for j, (m, frag) in enumerate(outs):
@@ -669,7 +672,7 @@ def run(ctx):
              'walks, all inputs of html/html_test.go, template-delimiter documents; each crossed with Keep* option sets '
              '(8 pairwise-covering sets; all 128 for the test inputs in thorough) and read as fragment (body context) '
              'and as document; a case is (input bytes, options, fragment?, delimiters); non-trivial = the real minifier '
-             'changed the bytes.  Generator exclusions (known findings, pinned in known/C03.ndjson): X7 empty attribute-less script/style; X11 optgroup directly inside template contents; X10 a kept comment (KeepComments/KeepSpecialComments) directly after a dropped tag; %d repository test inputs '
+             'changed the bytes.  Generator exclusions (known findings, pinned in known/C03.ndjson): X7 empty attribute-less script/style; X11 optgroup directly inside template contents; X12 (second pass only) attribute-less <colgroup> after a colgroup without end tag; X10 a kept comment (KeepComments/KeepSpecialComments) directly after a dropped tag; %d repository test inputs '
              'that are not conforming HTML (listed in tools/props/c03.py)' % len(skipped),
         samples=samples,
         exhaustive=True,
